@@ -633,3 +633,45 @@ def bor_bound(x: Int, y: Int, n: Int):
     """bitwise or of two n-bit numbers is an n-bit number (assumed property of the builtin `|`)"""
     requires(n >= 0 and 0 <= x and x < pow2(n) and 0 <= y and y < pow2(n))
     ensures(0 <= bor(x, y) and bor(x, y) < pow2(n) and bor(x, y) >= x)
+
+
+@lemma
+def is_bitstr_concat(a: Str, b: Str):
+    requires(is_bitstr(a) and is_bitstr(b))
+    ensures(is_bitstr(a + b))
+    decreases(len(b))
+    if len(b) > 0:
+        is_bitstr_concat(a, b[:len(b) - 1])
+
+
+@lemma
+def is_bitstr_zeros(n: Int):
+    ensures(is_bitstr(str_repeat('0', n)))
+    decreases(n)
+    if n > 0:
+        is_bitstr_zeros(n - 1)
+
+
+def str_repeat__facts(s, n, r):
+    return implies(n >= 0, len(r) == n * len(s)) and implies(n < 0, len(r) == 0)
+
+
+@lemma
+def fact_str_repeat(s: Str, n: Int):
+    nofacts("str_repeat")
+    ensures(implies(n >= 0, len(str_repeat(s, n)) == n * len(s)) and implies(n < 0, len(str_repeat(s, n)) == 0))
+    decreases(n)
+    if n > 0:
+        fact_str_repeat(s, n - 1)
+
+
+@lemma
+def is_bitstr_80():
+    ensures(is_bitstr('10000000'))
+    assert is_bitstr('1')
+    assert is_bitstr('10')
+    assert is_bitstr('100')
+    assert is_bitstr('1000')
+    assert is_bitstr('10000')
+    assert is_bitstr('100000')
+    assert is_bitstr('1000000')
